@@ -2,6 +2,7 @@ package transaction
 
 import (
 	"fmt"
+	"strings"
 	"time"
 
 	"github.com/sboehler/knut/lib/common/compare"
@@ -49,10 +50,13 @@ type Builder struct {
 
 // Build builds a transactions.
 func (tb Builder) Build() *Transaction {
+	// the journal syntax has no escape for a double quote inside a string; replace
+	// it here, so that transactions are ordered by the description that is printed
+	desc := strings.ReplaceAll(tb.Description, "\"", "'")
 	return &Transaction{
 		Src:         tb.Src,
 		Date:        tb.Date,
-		Description: tb.Description,
+		Description: desc,
 		Postings:    tb.Postings,
 		Targets:     tb.Targets,
 	}
